@@ -253,9 +253,25 @@ def main(argv):
                 if m:
                     reached.add(m.group(1))
             vacuous = [f for f in fns if f not in reached]
-            vac = dict(functions=len(fns), reachable=len(reached), vacuous=vacuous)
+            vac = vac or dict(note='thorough tier: (1) assert(false) at the start of every contracted body must fail; (2) clause refutation: for every '
+                                   'function carrying an obligation of this property, each postcondition / invariant clause conjoined with `false` must come '
+                                   'back as a failed obligation under its registered name (one function at a time). `incomplete` lists targets where some clause was '
+                                   'not refuted: wrappers whose body calls the same falsified trait method, or a second loop after a falsified first one '
+                                   '(expected confounds), reported for information', units={})
+            vac['units'][uname] = dict(functions=len(fns), reachable=len(reached), vacuous=vacuous)
             if vacuous:
                 undecided.append('vacuous precondition (assert(false) verified at body start): %s' % vacuous)
+            try:
+                from .selftest import run_selftest
+                my_fns = {v['fn'] for v in mine.values()}
+                st = run_selftest(uname, repo, jobs=10, only_fns=my_fns)
+                vac['units'][uname]['clause_refutation'] = dict(targets=st['targets'], obligations_refuted=st['refuted'],
+                                                                 incomplete=[dict(target=p_['target'], not_refuted=p_['missing'][:6], unregistered=p_['unregistered'][:3]) for p_ in st['problems']][:40])
+                for p_ in st['problems']:
+                    if p_['unregistered']:
+                        undecided.append('clause refutation: failure names not registered as obligations: %s' % p_['unregistered'][:3])
+            except Exception as ex:   # the self-test is supplementary evidence; it never decides the property
+                vac['units'][uname]['clause_refutation'] = dict(error=str(ex)[:300])
 
     # ---- bounded stand-in (Kani): reported separately, never counted under obligations/discharged
     bounded, kani_cmd = [], ''
